@@ -1,6 +1,7 @@
 package props
 
 import (
+	"go/types"
 	"go/token"
 	"regexp/syntax"
 	"strings"
@@ -38,9 +39,11 @@ func runC17(c *core.Ctx) {
 
 // patternUsedBy: the constant pattern of the regexp on which fn calls method.
 func patternUsedBy(c *core.Ctx, fn *ssa.Function, method string) (string, bool) {
-	for _, ci := range facts.CallsIn(fn) {
-		if facts.CalleeName(ci.Common()) == "(*regexp.Regexp)."+method {
-			return regexpPattern(c, ci.Common().Args[0])
+	for _, f := range withHelpers(fn) {
+		for _, ci := range facts.CallsIn(f) {
+			if facts.CalleeName(ci.Common()) == "(*regexp.Regexp)."+method {
+				return regexpPattern(c, ci.Common().Args[0])
+			}
 		}
 	}
 	return "", false
@@ -106,7 +109,11 @@ func c17Grammar(c *core.Ctx) {
 	c.Check(anchored(rre) && anchored(hre) && anchored(pre), "C17.R2", "patterns/anchored", pr.Pos(), "all three patterns are anchored at both ends", "a reference/host/repository pattern is not anchored at both ends: strings with extra leading or trailing text would be accepted")
 	// which capture indexes does the parser use, and for which field?
 	fieldGroup := map[string]int{}
-	for _, b := range pr.Blocks {
+	var prBlocks []*ssa.BasicBlock
+	for _, f := range withHelpers(pr) {
+		prBlocks = append(prBlocks, f.Blocks...)
+	}
+	for _, b := range prBlocks {
 		for _, in := range b.Instrs {
 			st, ok := in.(*ssa.Store)
 			if !ok {
@@ -216,6 +223,25 @@ func c17PostChecks(c *core.Ctx) {
 			return true
 		},
 	}
+	// helpers the parsing was split into (anything of the package handling a Reference) are followed
+	facts.NewInliner(&ff, func(h *ssa.Function) bool {
+		if h.Pkg != pr.Pkg || h == tagCheck {
+			return false
+		}
+		mentions := func(t *types.Tuple) bool {
+			for i := 0; i < t.Len(); i++ {
+				if strings.HasSuffix(strings.TrimPrefix(t.At(i).Type().String(), "*"), "ociref.Reference") {
+					return true
+				}
+			}
+			return false
+		}
+		if mentions(h.Signature.Params()) || mentions(h.Signature.Results()) {
+			c.Analysed(facts.FuncName(h))
+			return true
+		}
+		return false
+	})
 	flow := facts.PathFlow(pr, ff)
 	n := 0
 	for _, r := range returnsOf(pr) {
